@@ -264,6 +264,9 @@ def build_query(identifier, session, query=None):
         if vr != "SQ" and val is not None:
             if vr in _text_vr and ("*" in val or "?" in val):
                 pass
+            elif vr == "UI" and elem.VM > 1:
+                # List of UID matching
+                pass
             elif vr in ["DA", "TM", "DT"] and "-" in val:
                 pass
             else:
